@@ -38,6 +38,11 @@ pub struct NetSpec {
     /// nodes whose master ports are turned into one-step masters by the link: the Sync leaves
     /// with its transmit time as originTimestamp and twoStepFlag cleared, the Follow_Up is dropped
     pub one_step: Vec<bool>,
+    /// asymmetric path: frames sent by node 0 take this much longer, frames sent by any other
+    /// node this much less (ns; the mean of the two directions is unchanged)
+    pub path_asymmetry_ns: i64,
+    /// nodes (with an oscillator) whose clock is statime's OverlayClock over the raw oscillator
+    pub overlay: Vec<bool>,
 }
 
 /// per-frame delay = delay_min + pattern(k) * (delay_max - delay_min); every frame is a choice
@@ -187,6 +192,10 @@ pub fn simulate(spec: &NetSpec, faults: &[(u64, Fault)], choices: &mut Choices, 
     for (ni, n) in nodes.iter().enumerate() {
         if let Some(Some((off, ppm))) = spec.oscillators.get(ni) {
             n.clock.borrow_mut().osc = Some(Osc::new(*off, *ppm));
+            if spec.overlay.get(ni).copied().unwrap_or(false) {
+                let cell = std::rc::Rc::new(std::cell::Cell::new(time_bits(((*off).max(0) as u128) << 32)));
+                n.clock.borrow_mut().overlay = Some((statime::OverlayClock::new(RawUnder(cell.clone())), cell));
+            }
         }
         SimClock::advance_to(&n.clock, 0);
     }
@@ -466,6 +475,7 @@ fn transmit(
             }
         }
     };
+    let d = if node == 0 { (d as i64 + spec.path_asymmetry_ns).max(0) as u64 } else { (d as i64 - spec.path_asymmetry_ns).max(0) as u64 };
     for seg in segments.iter().filter(|s| s.contains(&(node, port))) {
         for &(n2, p2) in seg.iter() {
             if (n2, p2) != (node, port) {
